@@ -130,7 +130,11 @@ def _h7(paint_mod):
         def make(orig, cls):
             @functools.wraps(orig)
             def apply_transform(self, transform, *extra, **kw):
-                res = orig(self, transform, *extra, **kw)
+                try:
+                    res = orig(self, transform, *extra, **kw)
+                except OverflowError:
+                    COUNT["H7.overflow_raised"] += 1  # callers are expected to fall back to a wrapping transform
+                    raise
                 COUNT["H7." + cls.__name__] += 1
                 try:
                     if isinstance(self, paint_mod.PaintLinearGradient):
